@@ -94,8 +94,12 @@ def _body(ks, js, vals, nc, nc2):
         over = [Vector(list(kc), name=nm) for kc, nm in zip(KC, knames)]
         over = over if K > 1 else over[0]
     kw = {}
+    argform = c.get('argform', 'plain')
     for fn in fns:
-        kw[fn + '_over'] = 'v' if spec != 'col' else t['v']
+        a_ = 'v' if spec != 'col' else t['v']
+        kw[fn + '_over'] = a_ if argform == 'plain' else ([a_] if argform == 'list' else (a_,))
+    if argform != 'plain' and spec == 'name' and K > 1:
+        over = tuple(over) if argform == 'tuple' else list(over)
     calls = []
     if c.get('apply'):
         def rec(values):
@@ -296,6 +300,9 @@ def obligations(tier, win=False, prefix='agg'):
     add('h_agg_int', 2, 'K=2,n=2,nones', K=2)
     for sp in ('col', 'ext'):
         add('h_agg_int', 3, 'spec=%s,n=3' % sp, spec=sp)
+    for af in ('list', 'tuple'):
+        add('h_agg_int', 3, 'args as %s,n=3' % af, argform=af, fns=['sum', 'max'])
+        add('h_agg_int', 2, 'args as %s,K=2,n=2' % af, argform=af, K=2, nones=False, fns=['count'])
     add('h_agg_int', 3, 'K=2,spec=ext,n=3', K=2, spec='ext', nones=False, fns=['sum'])
     for kt in ('str', 'date', 'hashy'):
         add('h_agg_int', 3, 'ktype=%s,n=3' % kt, ktype=kt)
